@@ -106,6 +106,8 @@ def prelude() -> List[Tuple[str, str, Any]]:
     # involve the set theory (see Engine.relevant_prelude): it is needed for plain arithmetic goals only
     add("pmod-builtin", "definitional: pmod(x,d) = x mod d",
         FA([x, d], Imp(d > 0, pmod(x, d) == x % d), patterns=[pmod(x, d)]))
+    add("pmod-const", "definitional instances of pmod for the constant divisors 1 and 8 (linear arithmetic)",
+        And(FA([x], pmod(x, 1) == 0, patterns=[pmod(x, 1)]), FA([x], pmod(x, 8) == x % 8, patterns=[pmod(x, 8)])))
     add("pmod-idem", "Nat.mod_mod", FA([x, d], Imp(d > 0, pmod(pmod(x, d), d) == pmod(x, d)),
                                        patterns=[pmod(pmod(x, d), d)]))
     add("pad-def", "definitional (Lean Pydsdl.pad): pad r x = (x + r - 1) / r * r; with Basic.pad_dvd, le_pad, pad_lt",
@@ -195,6 +197,9 @@ def prelude() -> List[Tuple[str, str, Any]]:
            patterns=[minseq(M, n)]))
     add("minseq-le", "definitional",
         FA([M, n, i], Imp(And(0 <= i, i < n), minseq(M, n) <= sel(M, i)), patterns=[MP(minseq(M, n), sel(M, i))]))
+    add("minmaxseq-first", "definitional instances (i = 0) of minseq-le / maxseq-ge",
+        FA([M, n], Imp(n >= 1, And(minseq(M, n) <= sel(M, 0), maxseq(M, n) >= sel(M, 0))),
+           patterns=[minseq(M, n), maxseq(M, n)]))
     add("maxseq-def", "definitional: maximum of a non-empty list",
         FA([M, n], Imp(n >= 1, And(0 <= w_maxseq(M, n), w_maxseq(M, n) < n, maxseq(M, n) == sel(M, w_maxseq(M, n)))),
            patterns=[maxseq(M, n)]))
